@@ -13,7 +13,8 @@ IsOk(o)    == "ok" \in DOMAIN o
 IsErr(o)   == "err" \in DOMAIN o
 IsPanic(o) == "panic" \in DOMAIN o \/ "abort" \in DOMAIN o \/ "timeout" \in DOMAIN o
 
-IdxArr(sel) == JArr([k \in 1..Len(sel) |-> JInt(sel[k])])
+(* the selected elements of the case's own document (the documents are [0, .., len-1], or hold nulls at known positions) *)
+Picked(r, sel) == JArr([k \in 1..Len(sel) |-> r.doc.a[sel[k] + 1]])
 Step(r) == IF r.stepomit THEN 1 ELSE r.step
 
 (* what the specification says this case must produce; a record
@@ -21,9 +22,9 @@ Step(r) == IF r.stepomit THEN 1 ELSE r.step
 Expected(r) ==
   CASE r.kind \in {"slice", "method"} ->
          IF Step(r) = 0 THEN [err |-> "invalid_slice"]
-         ELSE [ok |-> IdxArr(SliceL0(r.len, r.start, r.stop, Step(r)))]
+         ELSE [ok |-> Picked(r, SliceL0(r.len, r.start, r.stop, Step(r)))]
     [] r.kind = "index" ->
-         LET j == IndexL0(r.len, r.step) IN [ok |-> IF j = NOIDX THEN JNull ELSE JInt(j)]
+         LET j == IndexL0(r.len, r.step) IN [ok |-> IF j = NOIDX THEN JNull ELSE r.doc.a[j + 1]]
     [] r.kind \in {"other", "otheridx"} -> [ok |-> JNull]
 
 SliceMatches(exp, out) ==
